@@ -157,3 +157,9 @@ func (r *RecRes) Close(ctx context.Context) error {
 	r.Closed++
 	return nil
 }
+
+// FirstFunc returns the application's "_first" function for Engine.WithFirst (recorded like any other call).
+func (r *RecRes) FirstFunc() resource.EntryFunc {
+	fn, _ := r.FuncFor(context.Background(), "_first")
+	return fn
+}
